@@ -26,6 +26,13 @@ impl Write for Mock {
 impl Unpin for Mock {}
 
 fn conn(size: i64) -> ConnectionInfo { ConnectionInfo{ client: Address{ip:"127.0.0.1".into(), port: 1234}, server: Address{ip:"127.0.0.1".into(), port: 80}, request_size: size } }
+/// a request handled by Server::process over a transport that fails in one way: 'z' the writer accepts 100 bytes and then returns Ok(0),
+/// 'w' the second write fails, 'f' the flush fails, 'e' the read fails, anything else a clean transport (used as pool jobs by C06)
+pub fn transport_job(kind: char) {
+    let mut m = Mock::new(b"GET / HTTP/1.1\r\nHost: x\r\n\r\n".to_vec());
+    match kind { 'z' => m.acc = vec![100, 0], 'w' => m.werr = Some(1), 'f' => m.ferr = true, 'e' => m.rerr = true, _ => {} }
+    let _ = Server::process(&mut m, conn(10000), App::new());
+}
 const CORS_VARS: [&str; 6] = ["RWS_CONFIG_CORS_ALLOW_ORIGINS","RWS_CONFIG_CORS_ALLOW_CREDENTIALS","RWS_CONFIG_CORS_ALLOW_METHODS","RWS_CONFIG_CORS_ALLOW_HEADERS","RWS_CONFIG_CORS_EXPOSE_HEADERS","RWS_CONFIG_CORS_MAX_AGE"];
 
 pub fn build_tree(base: &str, spec: &str) {
@@ -167,9 +174,21 @@ pub fn main() {
     let mut out = std::fs::File::create(&args[2]).unwrap();
     std::panic::set_hook(Box::new(|_| {}));
     let home = std::env::current_dir().unwrap();
+    // a watchdog per case: code that does not return (a loop that spins on a transport that accepts nothing, a reader that never sees the
+    // end) must cost seconds, not the runner's quarter of an hour.  The case runs on its own thread; when it is not back in time the process
+    // exits with status 124 WITHOUT a result line, which the runner records as a crash of exactly this case and resumes after it
+    let limit = std::env::var("VERIF_CASE_SECONDS").ok().and_then(|v| v.parse::<u64>().ok()).unwrap_or(60);
     for line in std::io::BufReader::new(input).lines() {
         let line = line.unwrap();
-        let res = run_case(&line, &home);
+        let deep = line.len() > 50000 || line.starts_with("pool ");       // very large inputs and pool cases have their own, longer deadlines
+        let (tx, rx) = std::sync::mpsc::channel();
+        let (l2, h2) = (line.clone(), home.clone());
+        std::thread::Builder::new().stack_size(8 << 20).spawn(move || { let _ = tx.send(run_case(&l2, &h2)); }).unwrap();       // 8 MiB: the main thread's stack, on which the cases ran before
+        let res = match rx.recv_timeout(std::time::Duration::from_secs(if deep { limit * 5 } else { limit })) {
+            Ok(r) => r,
+            Err(std::sync::mpsc::RecvTimeoutError::Timeout) => std::process::exit(124),
+            Err(_) => std::process::exit(101),          // the case thread died without a result (a panic outside catch_unwind): as before, a crash
+        };
         writeln!(out, "{}", res).unwrap();
         out.flush().unwrap();
     }
